@@ -367,8 +367,8 @@ theorem sysUnlink_inv (fs : Fs) (hinv : Inv fs) (path : Bytes) : Inv (sysUnlink 
   | missing _ _ => exact hinv
   | err _ => exact hinv
 
-theorem sysRmdir_inv (fs : Fs) (hinv : Inv fs) (path : Bytes) : Inv (sysRmdir fs path).1 := by
-  unfold sysRmdir
+theorem sysRmdirCore_inv (fs : Fs) (hinv : Inv fs) (path : Bytes) : Inv (sysRmdirCore fs path).1 := by
+  unfold sysRmdirCore
   cases resolve fs path false with
   | found p e =>
     cases e with
@@ -387,6 +387,12 @@ theorem sysRmdir_inv (fs : Fs) (hinv : Inv fs) (path : Bytes) : Inv (sysRmdir fs
     | link _ => exact hinv
   | missing _ _ => exact hinv
   | err _ => exact hinv
+
+
+theorem sysRmdir_inv (fs : Fs) (hinv : Inv fs) (path : Bytes) : Inv (sysRmdir fs path).1 := by
+  rcases sysRmdir_cases fs path with h | ⟨e, h⟩
+  · rw [h]; exact sysRmdirCore_inv fs hinv path
+  · rw [h]; exact hinv
 
 theorem sysSendfile_inv (fs : Fs) (hinv : Inv fs) (out inp : Fd) (hout : FdOk fs out) (count : Nat) :
     Inv (sysSendfile fs out inp count).1 := by
